@@ -76,6 +76,7 @@ def run(repo, rep, tier):
                   'printer')
     r4 = rep.rule('C07.R4', 'canonical form folds every name component')
     r5 = rep.rule('C07.R5', 'case()/case_sorted() consistent with equality')
+    nested_reference_rule(repo, rep)
     inm = repo.cls(OBJ, 'CIMInstanceName')
     cnm = repo.cls(OBJ, 'CIMClassName')
 
@@ -395,3 +396,122 @@ def run(repo, rep, tier):
                     'nested-format', OBJ, f.node.lineno,
                     'reference keys are not printed in the requested format '
                     '(canonical URIs of nested paths keep their case)')
+
+
+def _mandatory_literals(func):
+    """constant strings that to_wbem_uri() appends to its result on every
+    path (outside of loops); None if the paths cannot be enumerated"""
+    from ..paths import return_paths
+    paths = return_paths(func, inline=False)
+    if not paths:
+        return None
+    common = None
+    for p in paths:
+        lits = set()
+        for st in p.effects:
+            if isinstance(st, ast.Expr) and isinstance(st.value, ast.Call) \
+                    and isinstance(st.value.func, ast.Attribute) and \
+                    st.value.func.attr == 'append' and st.value.args:
+                s = const_str(st.value.args[0])
+                if s is not None:
+                    lits.add(s)
+        common = lits if common is None else common & lits
+    return common or set()
+
+
+def _content_tests(test, pol, derived):
+    """[(constant, text)] for tests of the form  C in X / X.startswith(C) /
+    X.endswith(C) / X.find(C) ... / X.count(C) ... / re.match(P, X) that a
+    fact (test is pol) places on a string variable of `derived`"""
+    out = []
+    for n in ast.walk(test):
+        if isinstance(n, ast.Compare) and len(n.ops) == 1 and \
+                isinstance(n.ops[0], (ast.In, ast.NotIn)) and \
+                isinstance(n.comparators[0], ast.Name) and \
+                n.comparators[0].id in derived:
+            out.append((const_str(n.left), norm(n)))
+        elif isinstance(n, ast.Call) and isinstance(n.func, ast.Attribute) \
+                and isinstance(n.func.value, ast.Name) and \
+                n.func.value.id in derived and \
+                n.func.attr in ('startswith', 'endswith', 'find', 'index',
+                                'count', 'partition', 'isalnum', 'isalpha',
+                                'isdigit', 'isidentifier'):
+            out.append((const_str(n.args[0]) if n.args else None, norm(n)))
+        elif isinstance(n, ast.Call) and (dotted(n.func) or '').split(
+                '.')[-1] in ('match', 'search', 'fullmatch') and \
+                any(isinstance(a, ast.Name) and a.id in derived
+                    for a in n.args):
+            out.append((None, norm(n)))
+    return out
+
+
+def nested_reference_rule(repo, rep):
+    """C07.R6: a double-quoted key value is handed to the instance path
+    parser whatever it looks like.  The printer omits '//host', '/',
+    'namespace' and ':' depending on host/namespace/format, so the only
+    literal every printed path contains is what to_wbem_uri() appends on all
+    of its paths; a syntactic pre-check for anything else makes the parser
+    treat some printed reference keys as plain strings."""
+    from ..cfg import stmt_facts, GuardWalker
+    r6 = rep.rule('C07.R6', 'quoted key values reach the reference parser '
+                  'without a content pre-check the printer does not '
+                  'guarantee')
+    inm = repo.cls(OBJ, 'CIMInstanceName')
+    kb = inm.methods.get('_kbstr_to_cimval')
+    pr = inm.methods.get('to_wbem_uri')
+    if kb is None or pr is None:
+        raise AnalysisError('CIMInstanceName._kbstr_to_cimval / to_wbem_uri '
+                            'vanished')
+    r6.functions.update([kb.fq, pr.fq])
+    mand = _mandatory_literals(pr)
+    sf = stmt_facts(kb.node)
+    calls = []
+    for st, (facts, _t) in sf.items():
+        if isinstance(st, (ast.If, ast.Try, ast.For, ast.While, ast.With)):
+            continue
+        for c in ast.walk(st):
+            if isinstance(c, ast.Call) and \
+                    (dotted(c.func) or '').endswith('from_wbem_uri'):
+                calls.append((st, c, facts))
+    if not calls:
+        raise AnalysisError('_kbstr_to_cimval: no call of from_wbem_uri')
+    # variables the parsed string derives from
+    for st, c, facts in calls:
+        r6.sites += 1
+        derived = set()
+        work = [a.id for a in c.args if isinstance(a, ast.Name)]
+        while work:
+            v = work.pop()
+            if v in derived:
+                continue
+            derived.add(v)
+            for n in walk_no_nested(kb.node):
+                if isinstance(n, ast.Assign) and any(
+                        isinstance(t, ast.Name) and t.id == v
+                        for t in n.targets):
+                    work += [x.id for x in ast.walk(n.value)
+                             if isinstance(x, ast.Name)]
+        bad = []
+        for t, pol in facts:
+            for lit, text in _content_tests(t, pol, derived):
+                if lit is not None and mand is not None and pol and \
+                        all(ch in ''.join(mand) for ch in lit) and \
+                        any(lit in m for m in mand):
+                    continue        # the printer always emits it
+                bad.append((lit, text, pol))
+        r6.ob(not bad, 'from_wbem_uri@%s' % kb.qualname,
+              {'guards': [norm(t, 60) for t, _ in facts],
+               'printer_mandatory_literals': sorted(mand or [])})
+        for lit, text, pol in bad:
+            rep.finding(r6, kb.qualname, text, 'content-precheck', OBJ,
+                        c.lineno,
+                        'the reference parser is only tried when %s is %s, '
+                        'but to_wbem_uri() guarantees only the literals %s '
+                        'in a printed path (host, namespace, "/" and ":" '
+                        'are omitted depending on host/namespace/format): a '
+                        'reference key printed without that text comes back '
+                        'as a plain string' % (text, pol, sorted(mand or [])))
+    # positive control: the guard recogniser must see a containment test
+    probe = ast.parse("if ':' in cimval:\n    pass").body[0].test
+    if not _content_tests(probe, True, {'cimval'}):
+        raise AnalysisError('C07.R6 guard recogniser broken')
